@@ -100,29 +100,29 @@ func buildTree(paths [][]TraceEvent) *bThread {
 }
 
 type BMCResult struct {
-	Verdict   string // "safe", "violation", "unknown", "unsupported"
-	Kind      string // assert label / "panic" / "deadlock" / "race" / ...
-	Detail    string
-	Schedule  []int
-	TraceText []string
-	Steps     int
-	StateVars int
+	Verdict     string // "safe", "violation", "unknown", "unsupported"
+	Kind        string // assert label / "panic" / "deadlock" / "race" / ...
+	Detail      string
+	Schedule    []int
+	TraceText   []string
+	Steps       int
+	StateVars   int
 	Transitions int
-	Queries   int
-	SolverS   float64
-	Notes     []string
+	Queries     int
+	SolverS     float64
+	Notes       []string
 }
 
 type bmc struct {
-	meta    *Tracer
-	threads []*bThread
-	W       int
-	NC, NS  int
-	L       int
-	slots   map[string]int
-	s       *smt.Solver
-	pr      *smt.Printer
-	nfresh  int
+	meta      *Tracer
+	threads   []*bThread
+	W         int
+	NC, NS    int
+	L         int
+	slots     map[string]int
+	s         *smt.Solver
+	pr        *smt.Printer
+	nfresh    int
 	stored    map[uint64]bool
 	allStored bool
 	fuse      map[*bNode]bool
@@ -136,6 +136,7 @@ type bState struct {
 	pc      []*smt.Term
 	reg     map[string]*smt.Term
 	mutex   []*smt.Term
+	readers []*smt.Term // RWMutex read-lock counts
 	cnt     []*smt.Term
 	closed  []*smt.Term
 	capv    []*smt.Term
@@ -334,6 +335,7 @@ func RunBMC(meta *Tracer, traces [][][]TraceEvent, solverBin string, timeoutMs i
 	}
 	for i := 0; i < meta.NMutex; i++ {
 		st.mutex = append(st.mutex, b.c(0))
+		st.readers = append(st.readers, b.c(0))
 	}
 	for i := 0; i < b.NC; i++ {
 		if i < len(meta.Chans) {
@@ -628,6 +630,9 @@ func (b *bmc) freshen(st *bState, t int, assert func(*smt.Term)) *bState {
 	for i, x := range st.mutex {
 		n.mutex = append(n.mutex, fv(fmt.Sprintf("mu%d", i), x))
 	}
+	for i, x := range st.readers {
+		n.readers = append(n.readers, fv(fmt.Sprintf("rd%d", i), x))
+	}
 	for i := range st.cnt {
 		n.cnt = append(n.cnt, fv(fmt.Sprintf("cnt%d", i), st.cnt[i]))
 		n.closed = append(n.closed, fv(fmt.Sprintf("closed%d", i), st.closed[i]))
@@ -689,6 +694,9 @@ func (b *bmc) enabled(st *bState, n *bNode, memo map[*smt.Term]*smt.Term) *smt.T
 	obj := func() *smt.Term { return b.subst(e.Obj, st, memo) }
 	switch e.Kind {
 	case "lock":
+		o := obj()
+		return smt.And(smt.Eq(b.sel(st.mutex, o), b.c(0)), smt.Eq(b.sel(st.readers, o), b.c(0)))
+	case "rlock":
 		return smt.Eq(b.sel(st.mutex, obj()), b.c(0))
 	case "send":
 		o := obj()
@@ -809,7 +817,7 @@ func (b *bmc) classify() {
 	for i, th := range b.threads {
 		for _, n := range th.nodes {
 			switch n.ev.Kind {
-			case "end", "put", "get", "assert", "done", "panic", "cutoff", "unlock", "pruned":
+			case "end", "put", "get", "assert", "done", "panic", "cutoff", "unlock", "runlock", "pruned":
 				b.fuse[n] = true
 				continue
 			case "load":
@@ -1061,6 +1069,7 @@ func cloneState(st *bState) *bState {
 		n.reg[k] = v
 	}
 	n.mutex = append([]*smt.Term(nil), st.mutex...)
+	n.readers = append([]*smt.Term(nil), st.readers...)
 	n.cnt = append([]*smt.Term(nil), st.cnt...)
 	n.closed = append([]*smt.Term(nil), st.closed...)
 	n.capv = append([]*smt.Term(nil), st.capv...)
@@ -1117,6 +1126,11 @@ func (b *bmc) apply(st *bState, i int, n *bNode, g *smt.Term, t int) {
 	switch e.Kind {
 	case "lock":
 		forObj(len(st.mutex), func(k int, gk *smt.Term) { set(st.mutex, k, gk, b.c(i+1)) })
+	case "rlock":
+		forObj(len(st.readers), func(k int, gk *smt.Term) { set(st.readers, k, gk, smt.Add(st.readers[k], b.c(1))) })
+	case "runlock":
+		st.markBad("runlock-of-unlocked-rwmutex", smt.And(g, smt.Eq(b.sel(st.readers, obj), b.c(0))))
+		forObj(len(st.readers), func(k int, gk *smt.Term) { set(st.readers, k, gk, smt.Sub(st.readers[k], b.c(1))) })
 	case "unlock":
 		st.markBad("unlock-of-unlocked-mutex", smt.And(g, smt.Eq(b.sel(st.mutex, obj), b.c(0))))
 		forObj(len(st.mutex), func(k int, gk *smt.Term) { set(st.mutex, k, gk, b.c(0)) })
@@ -1231,6 +1245,14 @@ func (b *bmc) apply(st *bState, i int, n *bNode, g *smt.Term, t int) {
 	case "wgdone":
 		st.markBad("negative-waitgroup-counter", smt.And(g, smt.Eq(b.sel(st.wg, obj), b.c(0))))
 		forObj(len(st.wg), func(k int, gk *smt.Term) { set(st.wg, k, gk, smt.Sub(st.wg[k], b.c(1))) })
+	case "helpersdone":
+		all := smt.True
+		for _, h := range b.meta.Helpers {
+			if h < len(st.pc) {
+				all = smt.And(all, smt.Eq(st.pc[h], b.pcc(0)))
+			}
+		}
+		setReg(0, all)
 	case "wgwait", "waitall", "done":
 	case "begin", "end":
 		setReg(0, b.c(t+1))
@@ -1479,7 +1501,7 @@ func (b *bmc) footprints(wantRace bool) {
 			f["ALL"] = true
 		}
 		switch e.Kind {
-		case "lock", "unlock":
+		case "lock", "unlock", "rlock", "runlock":
 			f[tok("M", e.Obj)] = true
 		case "send", "recv", "close", "len":
 			f[tok("C", e.Obj)] = true
@@ -1501,7 +1523,7 @@ func (b *bmc) footprints(wantRace bool) {
 			f["CLK"] = true
 		case "put", "get":
 			f["P"+e.Label] = true
-		case "waitall":
+		case "waitall", "helpersdone":
 			f["ALL"] = true
 		case "assert", "panic", "cutoff", "pruned", "done":
 		default:
